@@ -148,14 +148,29 @@ func genBrkCfg() brkCfg {
 	}
 	c.open = []int64{1, 5, 10, 100, 1000}[rng.Intn(5)]
 	c.trial = []int64{1, 3, 10, 100}[rng.Intn(4)]
+	if rng.Intn(8) == 0 {
+		// "all window sizes": windows up to the largest Duration (nothing ever expires); with ticks far from the int64 limits no
+		// sum or difference of the counter wraps (t - window >= -MaxInt64)
+		c.window = []int64{1 << 62, math.MaxInt64, math.MaxInt64 - int64(rng.Intn(1000)), 1<<61 + 12345, 1 << 45}[rng.Intn(5)]
+		stats["cfg.huge-window"]++
+	}
 	return c
 }
+
+// hugeWindow: the tick scripts of such configurations stay near 10^12 (far from zero and from the limits)
+func (c brkCfg) hugeWindow() bool { return c.window >= 1<<45 }
 
 // tick script: mostly advancing, sometimes standing still, stepping back or jumping several windows
 func genTicks(n int, c brkCfg, start int64) []int64 {
 	ts := make([]int64, n)
 	t := start
 	mode := rng.Intn(4)
+	if c.hugeWindow() {
+		c.window = 1000 * c.interval // jump sizes only; the configuration keeps its window
+		if t < 1000000000000 && t > -1000000000000 {
+			t = 1000000000000
+		}
+	}
 	for i := range ts {
 		var d int64
 		switch r := rng.Intn(20); {
@@ -382,6 +397,9 @@ func runBreaker(count int, args []string) {
 		start := []int64{0, 1000, -500, 1 << 40}[rng.Intn(4)]
 		if len(args) > 0 && args[0] == "wrap" {
 			// known finding F7: ticker values within a few windows of the int64 limits
+			if c.hugeWindow() {
+				c.window = 3 * c.interval // the wrap streams keep ordinary window sizes
+			}
 			start = []int64{math.MaxInt64 - 3*c.window - int64(rng.Intn(50)), math.MaxInt64 - c.open - int64(rng.Intn(20)), math.MinInt64 + int64(rng.Intn(int(c.window))+1)}[rng.Intn(3)]
 		}
 		ticks := genTicks(2+3*nops, c, start)
@@ -590,6 +608,9 @@ func runWindow(count int, args []string) {
 		}
 		wstart := []int64{0, 1000, -500}[rng.Intn(3)]
 		if len(args) > 0 && args[0] == "wrap" {
+			if c.hugeWindow() {
+				c.window = 3 * c.interval // the wrap stream keeps ordinary window sizes
+			}
 			wstart = []int64{math.MaxInt64 - 3*c.window - int64(rng.Intn(50)), math.MinInt64 + int64(rng.Intn(int(c.window)+1)+1)}[rng.Intn(2)]
 		}
 		ticks := genTicks(1+nops, c, wstart)
